@@ -2,6 +2,7 @@
 mod common;
 mod c20;
 mod c07;
+mod c19;
 mod c05;
 mod c12;
 mod c11;
@@ -15,7 +16,7 @@ use common::*;
 
 fn main() {
   let args: Vec<String> = std::env::args().collect();
-  if args.len() < 5 && !(args.len() >= 2 && (args[1] == "eval" || args[1] == "sess")) {
+  if args.len() < 5 && !(args.len() >= 2 && (args[1] == "eval" || args[1] == "sess" || args[1] == "steps")) {
     eprintln!("usage: mvh <prop> <seed> <quick|thorough|replay> <outdir> [replay-file]");
     std::process::exit(2);
   }
@@ -31,6 +32,32 @@ fn main() {
       let o = interp::eval_obs(&src);
       let f = interp::eval(&src).map(|v| interp::form(&v)).unwrap_or("-");
       println!("{:50} => {} [{}]", l, o, f);
+    }
+    return;
+  }
+  if args.len() >= 2 && args[1] == "steps" {
+    // probing aid: each stdin line is a program (literal \\n for newlines); prints symbols after interpret and after step(0,1) x3
+    std::panic::set_hook(Box::new(|_| {}));
+    let mut text = String::new();
+    use std::io::Read;
+    std::io::stdin().read_to_string(&mut text).unwrap();
+    for l in text.lines() {
+      if l.trim().is_empty() { continue; }
+      let src = l.replace("\\n", "\n");
+      let mut intrp = mech_interpreter::Interpreter::new(0);
+      println!("PROGRAM {}", l);
+      match interp::parse_code(&src) {
+        Err(e) => println!("   harness:{}", e),
+        Ok(t) => {
+          let r = std::panic::catch_unwind(std::panic::AssertUnwindSafe(|| intrp.interpret(&t)));
+          println!("   interp {:5} | {}", match r { Ok(Ok(_)) => "ok", Ok(Err(_)) => "ERR", Err(_) => "PANIC" }, interp::symbols(&intrp).chars().take(200).collect::<String>());
+          println!("   plan len {}", intrp.plan().borrow().len());
+          for k in 0..3 {
+            let r = std::panic::catch_unwind(std::panic::AssertUnwindSafe(|| intrp.step(0, 1)));
+            println!("   step{}  {:5} | {}", k + 1, match r { Ok(Ok(_)) => "ok", Ok(Err(_)) => "ERR", Err(_) => "PANIC" }, interp::symbols(&intrp).chars().take(200).collect::<String>());
+          }
+        }
+      }
     }
     return;
   }
@@ -64,6 +91,7 @@ fn main() {
   let (generate, exec): (fn(u64, bool, &mut Sink) -> Vec<String>, fn(&str) -> String) = match prop {
     "C20" => (c20::generate, c20::exec),
     "C07" => (c07::generate, c07::exec),
+    "C19" => (c19::generate, c19::exec),
     "C05" => (c05::generate, c05::exec),
     "C12" => (c12::generate, c12::exec),
     "C11" => (c11::generate, c11::exec),
